@@ -4,7 +4,7 @@
 From Coq Require Import ZArith List String Extraction ExtrOcamlBasic.
 From PV Require Import Lib.Py Extract.Sx.
 From PV Require Gen.excelutil Gen.text.
-From PV Require Import Model.Text Model.TextFormat.
+From PV Require Import Model.Text Model.TextFormat Proofs.C20TextSpec.
 Import ListNotations.
 Open Scope string_scope.
 
@@ -34,6 +34,7 @@ Definition table : list entry :=
   ; E "concat" (callL X_concat)
   ; E "substitute" (callL X_substitute)
   ; E "text" (callL X_text)
+  ; E "text_spec" (callL spec_entry)     (* Proofs/C20TextSpec.v: [mode; x; f] -> (text_spec, is a tie) *)
   ].
 
 Definition dispatch (name : list Z) (args : list sx) : sx :=
